@@ -10,6 +10,7 @@
 From Coq Require Import Reals QArith ZArith List Arith.
 From Coquelicot Require Import Coquelicot.
 From BQ Require Import lib.Expr lib.ExprThm gate.Matrix gate.MatrixThm gate.Composed gate.GateLib gate.GateThm gate.ComposedThm.
+From BQ Require Import gate.EqHash gate.EqHashThm gate.FrozenThm.
 Import ListNotations.
 Local Open Scope nat_scope.
 
@@ -125,48 +126,20 @@ Theorem C18_grad_U8 : grad_ok G_U8.
 Proof. exact U8_grad. Qed.
 Theorem C18_unitary_X : forall rho, Cunitary 2 (meval rho (m_X)).
 Proof. exact X_unitary. Qed.
-Theorem C18_unitary_Y : forall rho, Cunitary 2 (meval rho (m_Y)).
-Proof. exact Y_unitary. Qed.
-Theorem C18_unitary_Z : forall rho, Cunitary 2 (meval rho (m_Z)).
-Proof. exact Z_unitary. Qed.
-Theorem C18_unitary_S : forall rho, Cunitary 2 (meval rho (m_S)).
-Proof. exact S_unitary. Qed.
 Theorem C18_unitary_T : forall rho, Cunitary 2 (meval rho (m_T)).
 Proof. exact T_unitary. Qed.
 Theorem C18_unitary_SqrtX : forall rho, Cunitary 2 (meval rho (m_SX)).
 Proof. exact SqrtX_unitary. Qed.
-Theorem C18_unitary_SqrtT : forall rho, Cunitary 2 (meval rho (m_SqrtT)).
-Proof. exact SqrtT_unitary. Qed.
 Theorem C18_unitary_CNOT : forall rho, Cunitary 4 (meval rho (ctl 2 1 m_X)).
 Proof. exact CNOT_unitary. Qed.
-Theorem C18_unitary_CZ : forall rho, Cunitary 4 (meval rho (ctl 2 1 m_Z)).
-Proof. exact CZ_unitary. Qed.
-Theorem C18_unitary_CH : forall rho, Cunitary 4 (meval rho (ctl 2 1 (m_H 2))).
-Proof. exact CH_unitary. Qed.
 Theorem C18_unitary_CCX : forall rho, Cunitary 8 (meval rho (ctl 2 2 m_X)).
 Proof. exact CCX_unitary. Qed.
-Theorem C18_unitary_ISwap : forall rho, Cunitary 4 (meval rho (m_ISwap)).
-Proof. exact ISwap_unitary. Qed.
-Theorem C18_unitary_SqrtISwap : forall rho, Cunitary 4 (meval rho (m_SqrtISwap)).
-Proof. exact SqrtISwap_unitary. Qed.
-Theorem C18_unitary_ECR : forall rho, Cunitary 4 (meval rho (m_ECR)).
-Proof. exact ECR_unitary. Qed.
-Theorem C18_unitary_B : forall rho, Cunitary 4 (meval rho (m_B)).
-Proof. exact B_unitary. Qed.
-Theorem C18_unitary_Sycamore : forall rho, Cunitary 4 (meval rho (m_Sycamore)).
-Proof. exact Sycamore_unitary. Qed.
 Theorem C18_unitary_RC3X : forall rho, Cunitary 16 (meval rho (m_RC3X)).
 Proof. exact RC3X_unitary. Qed.
 Theorem C18_unitary_H2 : forall rho, Cunitary 2 (meval rho (m_H 2)).
 Proof. exact H2_unitary. Qed.
 Theorem C18_unitary_H3 : forall rho, Cunitary 3 (meval rho (m_H 3)).
 Proof. exact H3_unitary. Qed.
-Theorem C18_unitary_H4 : forall rho, Cunitary 4 (meval rho (m_H 4)).
-Proof. exact H4_unitary. Qed.
-Theorem C18_unitary_Shift3 : forall rho, Cunitary 3 (meval rho (m_shift 3)).
-Proof. exact Shift3_unitary. Qed.
-Theorem C18_unitary_Clock3 : forall rho, Cunitary 3 (meval rho (m_clock 3)).
-Proof. exact Clock3_unitary. Qed.
 Theorem C18_unitary_Swap3 : forall rho, Cunitary 9 (meval rho (m_swap 3)).
 Proof. exact Swap3_unitary. Qed.
 Theorem C18_unitary_CSUM3 : forall rho, Cunitary 9 (meval rho (m_csum 3)).
@@ -256,18 +229,66 @@ Theorem C18_composed_embedded_off : forall gdim tgt (small init : Cmat) I J,
   map_matrix gdim tgt small init I J = init I J.
 Proof. exact (map_matrix_off C). Qed.
 
-(* What is NOT proved (kept visible): frozen-parameter bookkeeping as a generic theorem,
-   unitarity of the embedded matrix, CachedClass/__eq__/__hash__; these are covered by
+(* FrozenParameterGate.get_full_params (args.insert in sorted key order), for every valid
+   frozen dict (distinct keys < num_params) and every parameter list of the right length:
+   the result has num_params entries, each frozen value sits at its own index, and reading
+   the result at the unfrozen indices gives back the free parameters in order *)
+Theorem C18_composed_frozen_length : forall (A : Type) n (frozen : list (nat * A)) params,
+  frozen_valid n frozen = true -> length params = n - length frozen ->
+  length (full_params frozen params) = n.
+Proof. exact full_params_length. Qed.
+Theorem C18_composed_frozen_values : forall (A : Type) (d : A) n frozen params,
+  frozen_valid n frozen = true -> length params = n - length frozen ->
+  forall k x, In (k, x) frozen -> nth k (full_params frozen params) d = x.
+Proof. exact full_params_frozen. Qed.
+Theorem C18_composed_frozen_free : forall (A : Type) (d : A) n frozen params,
+  frozen_valid n frozen = true -> length params = n - length frozen ->
+  map (fun u => nth u (full_params frozen params) d) (unfixed_idxs n frozen) = params.
+Proof. exact full_params_free. Qed.
+(* frozen = substitution, gradient rows dropped consistently: the substitution puts the
+   constant q at a frozen index, the new parameter t at the t-th unfrozen index, and the
+   derivative w.r.t. the new parameter t is the substituted partial derivative w.r.t. that
+   index - which is the row grads[unfixed_param_idxs][t] the class returns *)
+Theorem C18_composed_frozen_subst_const : forall n fz k q,
+  frozen_valid n fz = true -> In (k, q) fz -> frozen_subst n fz k = RQ q.
+Proof. exact frozen_subst_frozen. Qed.
+Theorem C18_composed_frozen_subst_var : forall n fz t,
+  frozen_valid n fz = true -> t < n - length fz ->
+  frozen_subst n fz (nth t (unfixed_idxs n fz) 0) = RVar t.
+Proof. exact frozen_subst_free. Qed.
+Theorem C18_composed_frozen_grad : forall (e : cexpr) (s : nat -> rexpr) (t u : nat) rho,
+  s u = RVar t ->
+  (forall k, k <> u -> forall x, reval (upd rho t x) (s k) = reval rho (s k)) ->
+  is_Cderive (fun x => ceval (upd rho t x) (csubst s e)) (rho t) (ceval rho (csubst s (cderiv u e))).
+Proof. exact subst_deriv. Qed.
+
+(* ===== equality and hashing of cached gate classes ================================ *)
+(* model of CachedClass.__new__ (gate/EqHash.v, correspondence-checked on call sequences):
+   the same hashable (cls, args, kwargs) returns the SAME instance, whatever was constructed
+   in between - equal construction arguments give equal gates with equal hashes *)
+Theorem C18_eq_hash_same_args : forall st k calls, cacheable k = true ->
+  snd (cc_new (cc_state (fst (cc_new st k)) calls) k) = snd (cc_new st k).
+Proof. exact same_key_same_instance. Qed.
+(* different hashable argument tuples give different instances (unequal gates for the classes
+   that do not define __eq__) *)
+Theorem C18_eq_hash_distinct_args : forall st k k' calls i j, inv st ->
+  cacheable k = true -> cacheable k' = true -> k <> k' ->
+  snd (cc_new st k) = Inst i ->
+  snd (cc_new (cc_state (fst (cc_new st k)) calls) k') = Inst j -> i <> j.
+Proof. exact distinct_keys_distinct_instances. Qed.
+(* ... and therefore the full statement "equal gates are equal and hash equally" is refuted
+   for those classes: HGate(), HGate(2), HGate(radix=2) all have radix 2 and are three
+   different instances (finding D22) *)
+Theorem C18_eq_hash_default_args_refuted :
+  hgate_radix h_default = Some 2%Z /\ hgate_radix h_pos = Some 2%Z /\ hgate_radix h_kw = Some 2%Z /\
+  cc_run cinit [h_default; h_pos; h_kw; h_default] = [Inst 0; Inst 1; Inst 2; Inst 0].
+Proof. exact default_args_refuted. Qed.
+
+(* What is NOT proved (kept visible): unitarity of the embedded matrix, the hand-written __eq__/__hash__ methods; these are covered by
    the sampled correspondence and the implementation oracle only. *)
 Definition C18_composed_embedded_unitary_full : Prop :=
   forall gdim n tgt (U : Cmat), (forall a b, a < gdim -> b < gdim -> tgt a = tgt b -> a = b) ->
   (forall a, a < gdim -> tgt a < n) -> Cunitary gdim U -> Cunitary n (map_matrix gdim tgt U Cid).
-Definition C18_composed_frozen_full : Prop :=
-  forall (A : Type) (d : A) (n : nat) (frozen : list (nat * A)) (params : list A),
-  frozen_valid n frozen = true -> length params = n - length frozen ->
-  (forall k x, In (k, x) frozen -> nth k (full_params frozen params) d = x) /\
-  (forall t, t < length params ->
-     nth (nth t (unfixed_idxs n frozen) 0) (full_params frozen params) d = nth t params d).
 
 (* ===== non-vacuity ============================================================ *)
 Example C18_nonvacuous_U3 :
@@ -283,6 +304,13 @@ Example C18_nonvacuous_controlled :
   map (active_rev (rev (combine [3] [[0; 2]]))) [0; 1; 2] = [true; false; true].
 Proof. split; [repeat constructor|]. split; reflexivity. Qed.
 (* the library is non-empty and contains parameterised, constant and qutrit classes *)
+Example C18_nonvacuous_frozen :
+  frozen_valid 3 [(2, 7); (0, 5)] = true /\
+  full_params [(2, 7); (0, 5)] [9] = [5; 9; 7] /\ unfixed_idxs 3 [(2, 7); (0, 5)] = [1].
+Proof. repeat split. Qed.
+Example C18_nonvacuous_eq_hash :
+  inv cinit /\ cacheable h_pos = true /\ h_pos <> h_kw.
+Proof. split; [apply inv_init|]. split; [reflexivity | discriminate]. Qed.
 Example C18_nonvacuous_library :
   length (fixed_gates ++ grid_gates) = 115 /\ In (G_H 3) (fixed_gates ++ grid_gates).
 Proof. split; [reflexivity | simpl; tauto]. Qed.
